@@ -38,7 +38,7 @@ SCENARIOS = {
                  ("wg-n1-p2-e0-u1", None), ("wg-n2-p2-e0-u1", None), ("wg-n2-p2-e0-u2", None), ("wg-n3-p2-e1-u1", None), ("wg-n3-p2-e0-u1", None),
                  ("wg-n3-p2-e0-u3", None)],
 }
-SCENARIO_WALL_S = {"quick": 120, "thorough": 1500}
+SCENARIO_WALL_S = {"quick": 60, "thorough": 1500}
 
 
 def vmc_of(env):
@@ -58,7 +58,13 @@ def build_loom(env):
     p = subprocess.run(["cargo", "build", "--release", "--offline"], cwd=LOOM_DIR, env=loom_env(env),
                        stdout=subprocess.PIPE, stderr=subprocess.STDOUT, text=True)
     if p.returncode != 0:
-        return p.stdout[-3000:]
+        # the extracted text does not compile against loom's types (a construct loom::sync does not offer): no verdict from this
+        # part - rebuild with the extraction switched off, the scenarios then report `skipped` with the reason
+        first_error = next((l for l in p.stdout.splitlines() if l.startswith("error")), "compile error")[:160]
+        p2 = subprocess.run(["cargo", "build", "--release", "--offline"], cwd=LOOM_DIR, env=dict(loom_env(env), OHKAMI_WG_SKIP=first_error),
+                            stdout=subprocess.PIPE, stderr=subprocess.STDOUT, text=True)
+        if p2.returncode != 0:
+            return p.stdout[-3000:]
     return None
 
 
@@ -66,7 +72,7 @@ def classify(output):
     """loom / oracle failure text -> (class suffix, one-line message) or None when the text is not a verdict"""
     m = re.search(r"ORACLE (safety|progress|liveness): ([^\n]*)", output)
     if m:
-        return {"safety": "returned-early", "progress": "pending-without-wake", "liveness": "never-returns"}[m.group(1)], m.group(0)
+        return {"safety": "returned-early", "progress": "lost-wake-up", "liveness": "never-returns"}[m.group(1)], m.group(0)
     if "Causality violation" in output or "data race" in output.lower():
         return "unsynchronised-session-work(data-race)", "loom: the waiter reads a session's work without a happens-before edge (memory ordering too weak)"
     if "deadlock" in output.lower():
